@@ -20,19 +20,29 @@ def strip_int(e: ast.AST) -> ast.AST:
 
 
 def check(ctx: Ctx) -> None:
+    bar_rules(ctx, explain=True)
+    # the bar's duration is made by RelativeSequence.pad: its measuring/padding rules (same as C18)
+    from .c18 import _check as c18_rules
+    c18_rules(ctx, only={"pad"})
+
+
+def bar_rules(ctx: Ctx, explain: bool = False) -> None:
     p = ctx.p
     fi = p.func(FN)
     ctx.analysed(fi)
-    ctx.explanation = (
+    if explain:
+      ctx.explanation = (
         "Structural necessary conditions of C10 on Bar.__init__: UNIT1 both capacity comparisons relate quantities of the "
         "same unit (dimension analysis: ticks vs quarters); CAP the compared/padded capacity is symbolically "
         "numerator*4/denominator quarters (times PPQN when in ticks) -- rational normal form; the over-capacity test uses >, "
         "raises, and precedes the padding; UNIT2 the pad argument is in ticks, the unit pad() compares it with; "
         "SIG on the only normal exit all TIME_SIGNATURE events were filtered out and exactly one, carrying the bar's "
         "numerator/denominator, was inserted at index 0, after both rejection tests (count > 1, not all equal to the bar's); "
-        "COPY Bar.copy passes sequence copy, numerator, denominator and key (OWN2). "
+        "COPY Bar.copy passes sequence copy, numerator, denominator and key (OWN2); PAD/MEASURE the padding routine measures the sum of "
+        "all waits and appends requested - measured under measured < requested (the rules of C18 on RelativeSequence.pad). "
         "Not decided: the exact resulting duration as a number; behaviour for equal repeated signatures (normalise removes them).")
-    ctx.assumptions += ["integer numerator/denominator", "RelativeSequence.pad pads to exactly the requested length (C18)"]
+    if explain:
+        ctx.assumptions += ["integer numerator/denominator"]
     params = fi.params
     num_attr, den_attr = "self.time_signature_numerator", "self.time_signature_denominator"
     ua = UnitAnalysis(p, fi)
